@@ -5,6 +5,7 @@ import RedisGoModel.Raft.RQJoint
 import RedisGoModel.Raft.RSC
 import RedisGoModel.Raft.RHC
 import RedisGoModel.Raft.RSJ
+import RedisGoModel.Raft.RHJ
 /-! Lock-step driver for C15 (run interpreted: `lake env lean --run RaftDriver.lean < trace`; the Raft model imports
     Mathlib, so it is not linked into the compiled `driver`).
 
@@ -51,12 +52,36 @@ def encD (d : Nat) : Nat :=
     4 * id + (if ty == 0 then 1 else if ty == 1 then 2 else if ty == 3 then 3 else 0)
   else 4 * d
 
-def parseEnts (s : String) (mem : Bool := false) : Option Log :=
+def ccTypeJ (n : Nat) : RQJ.ChangeType :=
+  if n == 0 then .addNode else if n == 1 then .removeNode else if n == 2 then .updateNode else .addLearnerNode
+
+/-- member-joint schedules: a legacy conf change is `1<<40 | type<<8 | id`, a `ConfChangeV2` is
+    `2<<40 | transition<<36 | len<<32 | four bytes (type<<6 | id), first change highest` (`harness/raftsim.go` `encV2`), a normal payload
+    its number; the model (`RSJ.ccOf`) wants `RSJ.encCC` of the conf change as `applyConfChange` classifies it (`Transition = Auto` with
+    no change: `leave`; with one change: `single`; with more, or `JointImplicit`: `enter true`; `JointExplicit`: `enter false`) and `8*payload` -/
+def encDJ (d : Nat) : Nat :=
+  if d / 1099511627776 == 1 then
+    let ty := (d / 256) % 256
+    let id := d % 256
+    8 * id + (if ty == 0 then 1 else if ty == 1 then 2 else if ty == 3 then 3 else 0)
+  else if d / 1099511627776 == 2 then
+    let tr := (d / 68719476736) % 16
+    let n := (d / 4294967296) % 16
+    let chs : List RQJ.Change := (List.range n).map fun k =>
+      let b := (d / (256 ^ (3 - k))) % 256
+      ⟨ccTypeJ (b / 64), b % 64⟩
+    let cc : RSJ.CC :=
+      if tr == 0 then (match chs with | [] => .leave | [c] => .single c | _ => .enter true chs)
+      else if tr == 1 then .enter true chs else .enter false chs
+    RSJ.encCC cc
+  else 8 * d
+
+def parseEnts (s : String) (mem : Bool := false) (jt : Bool := false) : Option Log :=
   if s == "-" then some [] else
   (s.splitOn "/").mapM fun f =>
     match f.splitOn "." with
     | [t, d] => match t.toNat?, d.toNat? with
-      | some t, some d => some ⟨t, if mem then encD d else d⟩
+      | some t, some d => some ⟨t, if jt then encDJ d else if mem then encD d else d⟩
       | _, _ => none
     | _ => none
 
@@ -69,24 +94,25 @@ inductive PMsg (N : Nat)
 | propFwd (src dst : Fin N) (v : Nat)
 | propFwdC (src dst : Fin N) (vs : List Nat) (raw : String)
 
-def parseMsg (N : Nat) (s : String) (mem : Bool := false) : Option (PMsg N) :=
+def parseMsg (N : Nat) (s : String) (mem : Bool := false) (jt : Bool := false) : Option (PMsg N) :=
   match s.splitOn "," with
   | ["vote", t, f, d, li, lt] => do
       return .m (.vote (← t.toNat?) (← fin? N f) (← fin? N d) (← li.toNat?) (← lt.toNat?))
   | ["voteResp", t, f, d, r] => do
       return .m (.voteResp (← t.toNat?) (← fin? N f) (← fin? N d) (← bool? r))
   | ["app", t, f, d, prev, pt, cm, es] => do
-      return .m (.app (← t.toNat?) (← fin? N f) (← fin? N d) (← prev.toNat?) (← pt.toNat?) (← parseEnts es mem) (← cm.toNat?))
+      return .m (.app (← t.toNat?) (← fin? N f) (← fin? N d) (← prev.toNat?) (← pt.toNat?) (← parseEnts es mem jt) (← cm.toNat?))
   | ["appResp", t, f, d, idx, r] => do
       return .m (.appResp (← t.toNat?) (← fin? N f) (← fin? N d) (← idx.toNat?) (← bool? r))
   | ["hb", t, f, d, c] => do
       return .m (.hb (← t.toNat?) (← fin? N f) (← fin? N d) (← c.toNat?))
   | ["snap", t, f, d, k, es] => do
-      return .m (.snap (← t.toNat?) (← fin? N f) (← fin? N d) (← k.toNat?) (← parseEnts es mem))
+      return .m (.snap (← t.toNat?) (← fin? N f) (← fin? N d) (← k.toNat?) (← parseEnts es mem jt))
   | ["hbResp", t, f, d] => do
       return .hbResp (← t.toNat?) (← fin? N f) (← fin? N d)
   | ["propFwd", _, f, d, v] => do
-      if mem then return .propFwdC (← fin? N f) (← fin? N d) ((← (v.splitOn "+").mapM String.toNat?).map encD) v
+      if jt then return .propFwdC (← fin? N f) (← fin? N d) ((← (v.splitOn "+").mapM String.toNat?).map encDJ) v
+      else if mem then return .propFwdC (← fin? N f) (← fin? N d) ((← (v.splitOn "+").mapM String.toNat?).map encD) v
       else return .propFwd (← fin? N f) (← fin? N d) (← v.toNat?)
   | _ => none
 
@@ -111,11 +137,11 @@ structure Obs (N : Nat) where
 def parseRole (s : String) : Option Role :=
   if s == "F" then some .follower else if s == "C" then some .candidate else if s == "L" then some .leader else none
 
-def parseObs (N : Nat) (t v r l c lg mt vt : String) (mem : Bool := false) : Option (Obs N) := do
+def parseObs (N : Nat) (t v r l c lg mt vt : String) (mem : Bool := false) (jt : Bool := false) : Option (Obs N) := do
   let mt' ← if mt == "-" then some none else ((mt.splitOn ",").mapM String.toNat?).map some
   let vt' ← if vt == "-" then some none else
     ((vt.splitOn ",").mapM fun x => if x == "n" then some none else (bool? x).map some).map some
-  return ⟨← t.toNat?, ← optFin? N v, ← parseRole r, ← optFin? N l, ← c.toNat?, ← parseEnts lg mem, mt', vt'⟩
+  return ⟨← t.toNat?, ← optFin? N v, ← parseRole r, ← optFin? N l, ← c.toNat?, ← parseEnts lg mem jt, mt', vt'⟩
 
 def roleStr : Role → String | .follower => "F" | .candidate => "C" | .leader => "L"
 def optStr {N : Nat} : Option (Fin N) → String | none => "-" | some x => toString x.val
@@ -261,12 +287,12 @@ def runInputs {N : Nat} (sent : Std.HashSet String) (i : Fin N) (n0 : Node1 N) (
   return (n, calls, kinds)
 
 /-- check the messages observed during an event against the calls; returns error texts -/
-def checkOuts {N : Nat} (i : Fin N) (calls : List (Call N)) (outs : List String) (mem : Bool := false) : List String := Id.run do
+def checkOuts {N : Nat} (i : Fin N) (calls : List (Call N)) (outs : List String) (mem : Bool := false) (jt : Bool := false) : List String := Id.run do
   let mut errs : List String := []
   let mut seen : List (Msg1 N) := []
   let mut seenX : List String := []
   for o in outs do
-    match parseMsg N o mem with
+    match parseMsg N o mem jt with
     | some (.m x) =>
       seen := x :: seen
       if !(calls.any fun c => c.resps.contains x || leaderOutB c.post i x) then
@@ -637,6 +663,133 @@ def parseCC (desc : String) : Option RSJ.CC :=
 def cfg5Str (c : RQJ.Config) : String :=
   s!"{idsStr c.voters} {idsStr c.outgoing} {idsStr c.learners} {idsStr c.learnersNext} {if c.autoLeave then "1" else "0"}"
 
+/-! Stage D, step 7: the `member-joint` / `member-joint-partition` schedules (header `RJ <voters>`) are replayed event by event on the
+    executable joint-configuration handler `RHJ.handleJ` (`Raft/RHJ.lean`; `RHJ.runJ_safe`).  Entries are decoded by `encDJ`; besides
+    the inputs of the member schedules there is `adv:o` (`Advance` after committed entries were applied; `o` = `raftLog.applied`
+    before it: the leader's automatic leave).  An `E` line carries seven more fields than a fixed-membership one: applied index,
+    voters, learners, outgoing voters, `LearnersNext`, `AutoLeave`, `pendingConfIndex` (compared on a leader). -/
+structure DStJ (N : Nat) where
+  c0 : RQJ.Config
+  nodes : Array (RHC.NodeC N)
+  sent : Std.HashSet String := {}
+
+def runInputsJ {N : Nat} (c0 : RQJ.Config) (sent : Std.HashSet String) (i : Fin N) (x0 : RHC.NodeC N) (inputs : List String) :
+    Except String (RHC.NodeC N × List (Call N) × List String) := do
+  let mut x := x0
+  let mut calls : List (Call N) := []
+  let mut kinds : List String := []
+  for inp in inputs do
+    if inp == "noop" then
+      kinds := kinds ++ ["noop"]
+      continue
+    let none' : RHC.NodeC N → RHC.NodeC N → List String := fun _ _ => []
+    let (mi, extraOf, kind) ← (do
+      if inp == "hup" then pure (RHJ.InputJ.hup, none', "j-hup")
+      else if inp == "selfAck" then pure (RHJ.InputJ.selfAck, none', "j-selfAck")
+      else if inp == "beat" then pure (RHJ.InputJ.beat, none', "j-beat")
+      else if inp.startsWith "restart:" then
+        match (inp.drop 8).toString.toNat? with
+        | some a => pure (RHJ.InputJ.restart a, none', "j-restart")
+        | none => throw s!"bad input {inp}"
+      else if inp.startsWith "apply:" then
+        match (inp.drop 6).toString.toNat? with
+        | some k => pure (RHJ.InputJ.applyTo k, none', "j-apply")
+        | none => throw s!"bad input {inp}"
+      else if inp.startsWith "adv:" then
+        match (inp.drop 4).toString.toNat? with
+        | some o => pure (RHJ.InputJ.advance o, none', "j-advance")
+        | none => throw s!"bad input {inp}"
+      else if inp.startsWith "prop:" then
+        let raw := (inp.drop 5).toString
+        match raw.toNat? with
+        | some v => pure (RHJ.InputJ.prop [encDJ v], (fun _ post => fwdExtra i raw post), "j-prop")
+        | none => throw s!"bad input {inp}"
+      else if inp.startsWith "props:" then
+        let raw := (inp.drop 6).toString
+        match (raw.splitOn "+").mapM String.toNat? with
+        | some vs => pure (RHJ.InputJ.prop (vs.map encDJ), (fun _ post => fwdExtra i raw post), "j-props")
+        | none => throw s!"bad input {inp}"
+      else if inp.startsWith "recvprop:" then
+        let txt := (inp.drop 9).toString
+        if !sent.contains txt then throw s!"not-enabled: {txt} was never emitted" else
+        match parseMsg N txt true true with
+        | some (.propFwdC src dst vs raw) =>
+          if dst ≠ i then throw s!"not-enabled: {txt} is not addressed to node {i.val}" else
+          pure (RHJ.InputJ.prop vs, (fun _ post => fwdExtra src raw post), "j-recv-propFwd")
+        | _ => throw s!"bad input {inp}"
+      else if inp.startsWith "recvhbresp:" then
+        let txt := (inp.drop 11).toString
+        if !sent.contains txt then throw s!"not-enabled: {txt} was never emitted" else
+        match parseMsg N txt true true with
+        | some (.hbResp t src dst) =>
+          if dst ≠ i then throw s!"not-enabled: {txt} is not addressed to node {i.val}"
+          else if RHJ.hasProg (RHJ.cfgOf c0 x) src && x.n.term < t then throw s!"unmodelled: MsgHeartbeatResp with a higher term {t} > {x.n.term}"
+          else pure (RHJ.InputJ.beat, none', "j-recv-hbResp")
+        | _ => throw s!"bad input {inp}"
+      else if inp.startsWith "recv:" then
+        let txt := (inp.drop 5).toString
+        if !sent.contains txt then throw s!"not-enabled: {txt} was never emitted" else
+        match parseMsg N txt true true with
+        | some (.m m) =>
+          if m.dst ≠ i then throw s!"not-enabled: {txt} is not addressed to node {i.val}" else
+          let ex := fun (pre post : RHC.NodeC N) =>
+            match m with
+            | .hb t src _ _ => if pre.n.term ≤ t ∧ post.n.role ≠ .leader then [s!"hbResp,{post.n.term},{i.val},{src.val}"] else []
+            | _ => []
+          pure (RHJ.InputJ.recv m, ex, "j-recv-" ++ msgKind m)
+        | _ => throw s!"bad input {inp}"
+      else throw s!"bad input {inp}" : Except String (RHJ.InputJ N × (RHC.NodeC N → RHC.NodeC N → List String) × String))
+    let r := RHJ.handleJ c0 i x mi
+    let post : RHC.NodeC N := { r.1 with n := freeze r.1.n }
+    calls := calls ++ [⟨post.n, r.2, extraOf x post⟩]
+    kinds := kinds ++ [kind]
+    if x.n.commit < post.n.commit then kinds := kinds ++ [kind ++ "+commit"]
+    if RHJ.cfgOf c0 x ≠ RHJ.cfgOf c0 post then
+      kinds := kinds ++ [kind ++ "+config", kind ++ (if RQJ.joint (RHJ.cfgOf c0 post) then "+config-now-joint" else "+config-now-simple")]
+    if kind == "j-advance" ∧ x.n.log.length < post.n.log.length then kinds := kinds ++ ["j-advance+autoleave-appended"]
+    if kind == "j-props" ∨ kind == "j-recv-propFwd" then
+      for e in post.n.log.drop x.n.log.length do
+        kinds := kinds ++ [if RSJ.isConfData e.data then "j-gate/conf-change-appended" else "j-gate/normal-or-refused"]
+    match mi with
+    | .prop vs =>
+      if x.n.role = .leader ∧ RHJ.hasProg (RHJ.cfgOf c0 x) i then
+        match vs.filterMap RSJ.ccOf with
+        | cc :: _ =>
+          kinds := kinds ++ [match RSJ.refusal x.applied x.pend (RQJ.joint (RHJ.cfgOf c0 x)) cc with
+            | none => "j-gate/first/accepted"
+            | some r => if r.startsWith "possible" then "j-gate/first/refused-pending" else if r.startsWith "must" then "j-gate/first/refused-joint"
+                        else "j-gate/first/refused-not-joint"]
+        | [] => pure ()
+    | _ => pure ()
+    if (kind == "j-hup") ∧ x.n.term < post.n.term ∧ RQJ.joint (RHJ.cfgOf c0 x) then kinds := kinds ++ ["j-hup+campaigns-joint"]
+    if (kind == "j-selfAck" ∨ kind == "j-recv-appResp") ∧ x.n.commit < post.n.commit ∧ RQJ.joint (RHJ.cfgOf c0 x) then kinds := kinds ++ ["j-commit-by-joint-quorum"]
+    if kind == "j-recv-voteResp" ∧ x.n.role = .candidate ∧ post.n.role = .leader ∧ RQJ.joint (RHJ.cfgOf c0 x) then kinds := kinds ++ ["j-won-by-joint-quorum"]
+    x := post
+  return (x, calls, kinds)
+
+def eventLineJ {N : Nat} (st : DStJ N) (fs : List String) : DStJ N × List String × List String × Nat :=
+  match fs with
+  | [_, _kind, node, inputs, t, v, r, l, c, lg, mt, vt, out, ap, vs, ls, os, lns, al, pd] =>
+    match fin? N node, parseObs N t v r l c lg mt vt true true, ap.toNat?, parseCfg vs os ls lns al, pd.toNat? with
+    | some i, some obs, some ap, some oc, some pd =>
+      let outs := if out == "-" then [] else out.splitOn ";"
+      let x0 := st.nodes[i.val]!
+      let sent' := outs.foldl (fun s o => s.insert o) st.sent
+      let adoptC : RHC.NodeC N := { n := adopt x0.n obs, applied := ap, pend := pd }
+      match runInputsJ st.c0 st.sent i x0 (inputs.splitOn ";") with
+      | .error e => ({ st with nodes := st.nodes.set! i.val adoptC, sent := sent' }, [e], [], outs.length)
+      | .ok (x, calls, kinds) =>
+        let c := RHJ.cfgOf st.c0 x
+        let errs := diff x.n obs ++ checkOuts i calls outs true true ++
+          (if x.applied ≠ ap then [s!"applied model={x.applied} impl={ap}"] else []) ++
+          (if c ≠ oc then [s!"config model=[{cfg5Str c}] impl=[{cfg5Str oc}]"] else []) ++
+          (if x.n.role = .leader ∧ x.pend ≠ pd then [s!"pendingConfIndex model={x.pend} impl={pd}"] else [])
+        let x' := if errs.isEmpty then x else adoptC
+        ({ st with nodes := st.nodes.set! i.val x', sent := sent' }, errs, kinds, outs.length)
+    | _, _, _, _, _ => (st, ["unparsable member-joint event line"], [], 0)
+  | _ => (st, ["unparsable member-joint event line"], [], 0)
+
+
 def stageJF (fs : List String) : List String × List String :=
   match fs with
   | ["JF", _, _, desc, v0, v1, l, ln, al, w0, w1, m, mn, bl] =>
@@ -719,8 +872,9 @@ structure Sched where
   N : Nat
   st : DSt N
   stc : Option (DStC N) := none
+  stj : Option (DStJ N) := none
 
-def newSched (N : Nat) : Sched := ⟨N, { nodes := Array.ofFn (n := N) (fun i => (init1 N).nodes i) }, none⟩
+def newSched (N : Nat) : Sched := ⟨N, { nodes := Array.ofFn (n := N) (fun i => (init1 N).nodes i) }, none, none⟩
 
 partial def loop (h : IO.FS.Stream) (tot : Tot) (sc : Sched) : IO Tot := do
   let line ← h.getLine
@@ -741,11 +895,18 @@ partial def loop (h : IO.FS.Stream) (tot : Tot) (sc : Sched) : IO Tot := do
       let c0 : RQJ.Config := ⟨v, ∅, ∅, ∅, false⟩
       loop h (tot.bump "member-schedules") { sc with stc := some { c0 := c0, nodes := Array.ofFn (n := sc.N) (fun i => ⟨(init1 sc.N).nodes i, 0, 0⟩) } }
     | none => IO.println s!"MISMATCH {tot.lines} bad-RC :: {line}"; loop h { tot with bad := tot.bad + 1 } sc
+  | ["RJ", vs] =>
+    match idSet? vs with
+    | some v =>
+      let c0 : RQJ.Config := ⟨v, ∅, ∅, ∅, false⟩
+      loop h (tot.bump "member-joint-schedules") { sc with stj := some { c0 := c0, nodes := Array.ofFn (n := sc.N) (fun i => ⟨(init1 sc.N).nodes i, 0, 0⟩) } }
+    | none => IO.println s!"MISMATCH {tot.lines} bad-RJ :: {line}"; loop h { tot with bad := tot.bad + 1 } sc
   | "E" :: kind :: _ =>
     let (sc', errs, kinds, nout) : Sched × List String × List String × Nat :=
-      match sc.stc with
-      | some stc => let (s', e, k, n) := eventLineC stc fs; ({ sc with stc := some s' }, e, k, n)
-      | none => let (s', e, k, n) := eventLine sc.st fs; ({ sc with st := s' }, e, k, n)
+      match sc.stj, sc.stc with
+      | some stj, _ => let (s', e, k, n) := eventLineJ stj fs; ({ sc with stj := some s' }, e, k, n)
+      | none, some stc => let (s', e, k, n) := eventLineC stc fs; ({ sc with stc := some s' }, e, k, n)
+      | none, none => let (s', e, k, n) := eventLine sc.st fs; ({ sc with st := s' }, e, k, n)
     let mut tot := { tot with events := tot.events + 1, evInSched := tot.evInSched + 1, calls := tot.calls + (kinds.filter fun k => !k.startsWith "br:" && k != "noop").length,
                               msgsChecked := tot.msgsChecked + nout }
     tot := tot.bump ("ev-" ++ kind)
